@@ -2,6 +2,8 @@
 EXTENDS WfFfi, Json
 (* failure texts are garbage tokens appended to a filter; the engine echoes the offending line in its   *)
 (* error message, so a NUL byte in the text reaches the last-error string and must be substituted       *)
-TextsDef == {<<101>>, <<101, 0, 102>>, <<0>>}
+(* offending tails appended to "i == 1 ": plain, NUL inside, NUL alone, NUL first on its line (the line is one *)
+(* formatting piece of the message), NUL last                                                                 *)
+TextsDef == {<<101>>, <<101, 0, 102>>, <<0>>, <<124, 124, 10, 0, 120>>, <<120, 0>>}
 Emit == (calls = MaxCalls) => PrintT(<<"REPLAY", ToJson([ev |-> "ffiseq", hist |-> hist])>>)
 =============================================================================
